@@ -15,13 +15,13 @@ vars == <<script, nd, up, dead>>
 Init == script = <<>> /\ nd = Pre /\ up = TRUE /\ dead = FALSE
 
 Base == {"Declare", "Post0", "PostPlain", "PostUnknown", "Commit0", "Rollback0", "DischUnknown", "CtlDetach", "CtlAttach", "Recv", "CommitPost0", "RollbackPost0"}
-Two == {"Post1", "Commit1", "Rollback1"}
-More == {"PostBig0", "Post0b", "Recvb"}
+Two == {"Post1", "Commit1", "Rollback1", "PostBig0"}
+More == {"Post0b", "Recvb"}
 Ev == Base \cup Two \cup (IF Deep THEN More ELSE {})
 Enabled(e) ==
   /\ ~dead
   /\ (e \in {"Post0", "Commit0", "Rollback0", "CommitPost0", "RollbackPost0", "PostBig0", "Post0b"} => nd >= 1)
-  /\ (e \in Two => nd >= 2)
+  /\ (e \in Two \ {"PostBig0"} => nd >= 2)
   /\ (e \in {"Declare", "Commit0", "Rollback0", "Commit1", "Rollback1", "DischUnknown", "CtlDetach", "CommitPost0", "RollbackPost0"} => up)
   /\ (e = "Declare" => nd < 3)
   /\ (e = "CtlAttach" => ~up)
@@ -42,7 +42,7 @@ Post(h, did, m, t) == [e |-> "PFrame", perf |-> "transfer", ch |-> 3, f |-> Xs(h
 Plain(h, did, m) == [e |-> "PFrame", perf |-> "transfer", ch |-> 3, f |-> Xf(h, did, FALSE), msg |-> [m |-> m, len |-> 20, shape |-> "data"]]
 \* a transactional post in two frames; the continuation frame repeats nothing but the handle
 Big(did, m, t) == << [e |-> "PFrame", perf |-> "transfer", ch |-> 3, f |-> Xs(6, did, TRUE, TxState(t)), msg |-> [m |-> m, len |-> 100, off |-> 0, n |-> 40, shape |-> "data"]],
-                     [e |-> "PFrame", perf |-> "transfer", ch |-> 3, f |-> [h |-> 6, did |-> -1, tagn |-> 0, tag |-> <<>>, fmt |-> -1, settled |-> "none", more |-> FALSE], msg |-> [m |-> m, len |-> 100, off |-> 40, n |-> -1, shape |-> "data"]] >>
+                     [e |-> "PFrame", perf |-> "transfer", ch |-> 3, f |-> [h |-> 6, did |-> -1, tagn |-> -1, fmt |-> -1, settled |-> "none", more |-> FALSE], msg |-> [m |-> m, len |-> 100, off |-> 40, n |-> -1, shape |-> "data"]] >>
 Ref(i) == [ref |-> i]
 Prefix == << [e |-> "AAccept", cfg |-> [mfs |-> 4096]], [e |-> "PHeader", kind |-> "amqp"], [e |-> "PFrame", perf |-> "open", ch |-> 0, f |-> [mfs |-> 4096, chmax |-> 10]],
              [e |-> "AAcceptSession", s |-> "s1", cfg |-> [noi |-> 1000, iw |-> 100, ow |-> 100, txn |-> TRUE]], PF("begin", [rch |-> -1, noi |-> 0, iw |-> 100, ow |-> 100]),
